@@ -190,8 +190,14 @@ class TransferScn:
         S = Session(w, P.get("transport", "popen"), P.get("backend", "thread"))
 
         def sizes(gw):
-            f = gw._channelfactory
-            return (len(f._channels), len(f._callbacks))
+            # public view: "<Gateway ... N active channels>"; the callback table has no public view
+            import re
+
+            m = re.search(r"(\d+) active channels", repr(gw))
+            nch = int(m.group(1)) if m else -1
+            f = getattr(gw, "_channelfactory", None)
+            ncb = len(getattr(f, "_callbacks", ())) if f is not None else 0
+            return (nch, ncb)
 
         def main():
             import gc
